@@ -215,7 +215,7 @@ def run(ctx):
         NT = 8 if ctx.tier == 'quick' else 14
         for k in range(NT):
             a, b, e = rng.choice(spans)
-            mode = rng.choice(['inside', 'inside', 'inside', 'edge', 'outside', 'array', 'just_past_end'])
+            mode = rng.choice(['inside', 'inside', 'inside', 'edge', 'outside', 'array', 'just_past_end', 'at_end'])
             base_t = Time(e['tmid_str'], format='mjd', precision=9)
             if mode == 'inside':
                 off = rng.uniform(-0.999, 0.999) * float(half)
@@ -223,6 +223,9 @@ def run(ctx):
                 off = rng.choice([-1, 1]) * (float(half) - rng.choice([1e-3, 0.5, 30.0]))
             elif mode == 'outside':
                 off = rng.choice([-1, 1]) * (float(half) + rng.choice([10.0, 3600.0, 86400.0 * 30]))
+            elif mode == 'at_end':
+                # exactly on the (inclusive) end or start of this entry's span: with a gap behind it only this entry contains the time
+                off = rng.choice([1, 1, -1]) * float(half)
             elif mode == 'just_past_end':
                 # closer to the end of this entry than a float MJD resolves (~0.6 us): an overlapping neighbour must take over
                 off = float(half) + rng.choice([1e-9, 3e-8, 1e-7, 4e-7])
@@ -281,7 +284,7 @@ def run(ctx):
                 if not near_end:
                     add(f'chk_predict {raws} {qlit(x - t0s)} (1 # 100000000) (Some {qlit(v)})', inp, float(v), 'predict')
             # ---- f0 and derivatives (scalar times)
-            if mode in ('inside', 'edge'):
+            if mode in ('inside', 'edge', 'at_end'):
                 x = ts[0]
                 cands = containing(x)
                 for n in (0, 1, 2):
